@@ -209,6 +209,7 @@ def run(chk: Check, drv: Driver):
             prepared.append(pr)
     chk.count("problems_with_kernel", len(prepared))
     kruns.compile_corr(chk, drv, prepared, limit=(150 if quick else None))
+    kruns.theorem_classes(chk, drv, prepared)
     run_batch(chk, drv, prepared, n_inputs=3 if quick else 6, real=True)
     chk.assumptions += [
         "values are small integers stored in binary64 (exact); rounding is outside the specification",
